@@ -12,6 +12,7 @@ type Tables struct {
 	NilResults   map[string]map[string]string `json:"nil_results"`   // method key -> result name -> spec expression on nil receiver
 	NilExceptions map[string]string           `json:"nil_exceptions"`
 	ROModifies   map[string]ROExtra           `json:"ro_modifies"`
+	SafeExclude  map[string]string            `json:"safe_exclude"` // int-parameter methods whose safety is decided under another property
 }
 
 type ROExtra struct {
